@@ -171,6 +171,9 @@ type FCase struct {
 	TC      int      `json:"tc"`            // targets on node C (0 = no third node)
 	Scripts [][]Step `json:"scripts"`       // one per sender goroutine on node A
 	TLS     bool     `json:"tls,omitempty"` // every node is configured WithTLS (mutual authentication)
+	// Burst: one more sender hands target 0 this many numbered messages in a tight loop, starting at
+	// first contact: the burst overlaps the making of the connection and many writer batches
+	Burst int `json:"burst,omitempty"`
 }
 
 type rec struct {
@@ -226,10 +229,14 @@ func (tg *target) receive(c *actor.Context) {
 
 func runFlows(c FCase) (map[string]int, error) {
 	nt := c.TB + c.TC
-	if c.TB < 1 || c.TB > 4 || c.TC < 0 || c.TC > 3 || len(c.Scripts) < 1 || len(c.Scripts) > 6 {
+	if c.TB < 1 || c.TB > 4 || c.TC < 0 || c.TC > 3 || len(c.Scripts) < 1 || len(c.Scripts) > 6 || c.Burst < 0 || c.Burst > 50000 {
 		return nil, nil
 	}
 	feat := map[string]int{}
+	if c.Burst > 0 {
+		c.Scripts = append(append([][]Step(nil), c.Scripts...), make([]Step, c.Burst))
+		feat["burst-at-first-contact"]++
+	}
 	if c.TLS {
 		feat["tls"]++
 	}
@@ -463,6 +470,9 @@ func genFlows(t *rapid.T) FCase {
 		c.Scripts = append(c.Scripts, sc)
 	}
 	c.TLS = rapid.IntRange(0, 3).Draw(t, "tls") == 0
+	if rapid.IntRange(0, 7).Draw(t, "burstcase") == 0 {
+		c.Burst = rapid.SampledFrom([]int{2000, 20000}).Draw(t, "burst")
+	}
 	if rapid.IntRange(0, 4).Draw(t, "bigcase") == 0 {
 		budget := 10
 		for g := range c.Scripts {
